@@ -261,16 +261,43 @@ def defectPattern (counts : List Nat) (recv : List (List Msg)) : Bool :=
 inductive Body where
   | echo        -- returns its arguments followed by the shared variables it reads when it runs
   | fail        -- raises an error carrying the same data
+  | panic       -- faults with a Go panic inside the call (a panicking builtin, the frame array
+                -- overflowing under unbounded recursion); `NewThread` recovers it into the
+                -- thread's error "panic: …"
   deriving Repr, DecidableEq
 
 inductive Outcome where
   | ret (vs : List Int)
   | err (vs : List Int)
+  | panicked (vs : List Int)   -- the error `NewThread`'s recover stores: still an outcome of the call
   deriving Repr, DecidableEq
 
 def Body.eval : Body → List Int → Outcome
   | .echo, vs => .ret vs
   | .fail, vs => .err vs
+  | .panic, vs => .panicked vs
+
+/-- An argument expression at a spawn site (`go f(e…)`, `go o.m(e…)`, `spawn(f, e…)`,
+    `f.spawn(e…)`): a variable, a literal, or a *nested call* — with a side effect on the
+    spawner's variables (`tick`) or pure (`dbl`), nested to any depth. -/
+inductive Arg where
+  | var (i : Nat)      -- `v_i`
+  | lit (k : Int)      -- a literal
+  | tick (i : Nat)     -- nested call `tick_i()`:  `v_i = v_i + 1; return v_i`
+  | dbl (a : Arg)      -- nested call `dbl(a)` = 2 * a
+  deriving Repr, DecidableEq
+
+/-- value of one argument expression and the spawner's variables after evaluating it -/
+def evalArg (vars : List Int) : Arg → Int × List Int
+  | .var i => (vars.getD i 0, vars)
+  | .lit k => (k, vars)
+  | .tick i => (vars.getD i 0 + 1, vars.set i (vars.getD i 0 + 1))
+  | .dbl a => (2 * (evalArg vars a).1, (evalArg vars a).2)
+
+/-- the argument list is evaluated left to right, each expression once, by the spawner -/
+def evalArgs (vars : List Int) : List Arg → List Int × List Int
+  | [] => ([], vars)
+  | a :: as => ((evalArg vars a).1 :: (evalArgs (evalArg vars a).2 as).1, (evalArgs (evalArg vars a).2 as).2)
 
 structure Thread where
   slice : Nat                      -- id of the Go slice the call reads its arguments from
@@ -289,7 +316,7 @@ structure TState where
 inductive TOp where
   | assign (i : Nat) (v : Int)            -- spawner reassigns one of its variables
   | setShared (i : Nat) (v : Int)         -- anybody writes a shared variable
-  | spawn (argVars : List Nat) (body : Body)   -- `go f(x…)`, `spawn(f, x…)`, `f.spawn(x…)`
+  | spawn (args : List Arg) (body : Body)   -- `go f(e…)`, `go o.m(e…)`, `spawn(f, e…)`, `f.spawn(e…)`
   | poke (sl i : Nat) (v : Int)           -- the holder of slice `sl` overwrites element `i` (Go API level)
   | runT (t : Nat)                        -- thread `t`'s call runs and returns
   | wait (t : Nat)
@@ -297,7 +324,7 @@ inductive TOp where
 
 inductive TObs where
   | unit
-  | spawned (t : Nat) (callerSlice : Nat)
+  | spawned (t : Nat) (callerSlice : Nat) (vars : List Int)   -- vars = the spawner's variables right after the statement
   | ran (r : Outcome)
   | waited (r : Outcome)
   deriving Repr, DecidableEq
@@ -309,17 +336,22 @@ def argVals (vars : List Int) (argVars : List Nat) : List Int := argVars.map (fu
 def tstepWith (copySlice : Bool) (s : TState) : TOp → Option (TState × TObs)
   | .assign i v => some ({ s with vars := s.vars.set i v }, .unit)
   | .setShared i v => some ({ s with shared := s.shared.set i v }, .unit)
-  | .spawn argVars body =>
-    let vals := argVals s.vars argVars
+  | .spawn args body =>
+    -- the argument expressions (nested calls included) are evaluated here, by the spawner,
+    -- with their side effects; the spawned call only ever sees the resulting values
+    let vals := (evalArgs s.vars args).1
+    let vars' := (evalArgs s.vars args).2
     let caller := s.heap.length
     if copySlice then
-      some ({ s with heap := s.heap ++ [(vals, true), (vals, false)],
+      some ({ s with vars := vars',
+                     heap := s.heap ++ [(vals, true), (vals, false)],
                      threads := s.threads ++ [{ slice := caller + 1, body := body }] },
-            .spawned s.threads.length caller)
+            .spawned s.threads.length caller vars')
     else
-      some ({ s with heap := s.heap ++ [(vals, true)],
+      some ({ s with vars := vars',
+                     heap := s.heap ++ [(vals, true)],
                      threads := s.threads ++ [{ slice := caller, body := body }] },
-            .spawned s.threads.length caller)
+            .spawned s.threads.length caller vars')
   | .poke sl i v =>
     match s.heap[sl]? with
     | some (xs, true) => some ({ s with heap := s.heap.set sl (xs.set i v, true) }, .unit)
